@@ -42,9 +42,25 @@ function (statements has the same cap and comes first), cfg blocks (≤ 2 + 2·s
         multiset / count) and the payload's output are those of the twin - the size of a component
         must not matter below the limits; exactly one resource-limit warning, no pass warning and
         no plan iff the model says a cap is exceeded (correspondence of the answer line).
+
+  summ  the interprocedural summary fixpoint itself: `summ <budget> <f> <l> <direct facts>` requests
+        answered by the REAL `compute_summaries_with_max_events` (on synthetic facts holding exactly
+        these direct facts) and by the model (`Summary.compute`: its own transcription of the
+        scheduling + `runGlobal`), compared per function (available, sorted transitive callees /
+        reads / writes, transitive class, body class).  Direct facts: random call graphs (sparse,
+        dense, complete, rings, chains of rings, shared rings, long chains into a ring, self calls,
+        disconnected parts, acyclic) with random captures and statement classes, and the real
+        resolver's facts of random programs with mutual recursion, captures and nested functions; a
+        few malformed ones (duplicates, callee out of range -> both sides `panic`).  Budgets per
+        program: the preflight bound f*(f+2l+2), bound-1, the least budget that suffices, one less,
+        half, two random smaller ones (run out mid-component), 0.  Oracles (harness): budget >= bound
+        and well-formed facts => every summary available (the theorem `summary_budget_suffices` on
+        the implementation); an available summary equals the one of the unlimited run.
 """
 import json
 import os
+
+import c18cli
 
 from common import Check, DRIVER, VERIF, sh
 
@@ -82,6 +98,8 @@ QUICK_SCC = [
     "scc/k=150/d=1/s=500/pad=statements",
 ]
 QUICK_SCC_RANDOM = 4
+QUICK_SUMM = (400, 40)                    # programs, largest function count
+THOROUGH_SUMM = (6000, 90)
 THOROUGH_SCC = (
     [f"scc/k={k}/d={d}/s={s}/frac={frac}/pay={100 + d}"
      for frac in (10000, 50000, 250000, 500000, 900000, 1000000)
@@ -104,7 +122,10 @@ def run(ck: Check):
                "(functions, loops, dead tails, nested definitions, a few resolver-error programs) with caps around "
                "the observed values; e2e: one program per reachable DEFAULT cap at cap-1 / cap / cap+1; scc: programs "
                "with a strongly connected call-graph component of 50-1000 functions next to independent functions, at "
-               "1 %-100 % of the summary-event cap and on second caps, compared with their ring-of-3 twins. "
+               "1 %-100 % of the summary-event cap and on second caps, compared with their ring-of-3 twins; summ: the "
+               "summary fixpoint on random call graphs / resolver facts with event budgets from the preflight bound "
+               "down to 0 (non-trivial = the budget runs out, or it is within 1 of the bound / of the least "
+               "sufficient budget). "
                "non-trivial = the deciding stage sits within 1 of its cap, or a later stage is above its cap as well "
                "(so the stage order matters); distinct by request text")
     ck.build_harness()
@@ -120,9 +141,15 @@ def run(ck: Check):
         res = ck.corr("limits", reqs, label=f"limits-random-{shift}" if shift else "limits-random")
         classify(ck, reqs, res)
         del reqs, res
+    summ(ck, *QUICK_SUMM, with_corpus=True)
     e2e(ck, QUICK_E2E, "debug")
+    # the shipped binary (fixed scratch arenas) around the statement limit: D-20 witness family
+    c18cli.run(ck, names=("incr", "expr") if ck.tier == "quick" else tuple(c18cli.FILLERS))
     scc(ck, corpus_scc() + QUICK_SCC, QUICK_SCC_RANDOM, label="limits-scc")
     if ck.tier == "thorough":
+        ck.seed += 77
+        summ(ck, *THOROUGH_SUMM, label="limits-summ-thorough")
+        ck.seed -= 77
         scc(ck, THOROUGH_SCC, THOROUGH_SCC_RANDOM, big=True, label="limits-scc-thorough")
         e2e(ck, SLOW_E2E, "debug")
         ck.build_harness("release")
@@ -195,6 +222,8 @@ def classify(ck, reqs, res):
         a = impl[i] if i < len(impl) else "?"
         kind = r.split(" ", 1)[0]
         ck.count(f"requests_{kind}")
+        if kind == "summ":
+            continue
         lim = a.split("limit=")[1].split(" ")[0] if "limit=" in a else a
         metric = lim.split(":")[0]
         ck.count(f"answer_{metric}")
@@ -288,6 +317,86 @@ def _unhex(s):
         return bytes.fromhex(s).decode(errors="replace")[:60]
     except ValueError:
         return s[:60]
+
+
+# -------------------------------------------------------------------------------------------- summ
+def summ_corpus():
+    """corpus/C18/*.req: hand-written `summ` requests and minimised past failures, run first."""
+    d = os.path.join(VERIF, "corpus", "C18")
+    out = []
+    for fn in sorted(os.listdir(d)):
+        if fn.endswith(".req"):
+            out += [l.strip() for l in open(os.path.join(d, fn)) if l.strip() and not l.startswith("#")]
+    return out
+
+
+def summ(ck, n, fmax, with_corpus=False, label="limits-summ"):
+    p = sh([ck.nvh(), "limits", "gen-summ", "--seed", str(ck.seed), "--n", str(n), "--fmax", str(fmax)], timeout=3600)
+    err = p.stderr.decode(errors="replace").splitlines()
+    if p.returncode != 0:
+        ck.broken.append({"kind": "summ-generator-failed", "what": "\n".join(err[-3:])[-600:]})
+        return
+    reqs = (summ_corpus() if with_corpus else []) + p.stdout.decode().splitlines()
+    for l in err:
+        if l.startswith("GEN-STATS"):
+            ck.extra_cov.setdefault("summ_generator", {})[label] = dict(kv.split("=", 1) for kv in l.split(" ")[1:] if "=" in kv)
+    res = ck.corr("limits", reqs, label=label, timeout=3600)
+    impl = res["impl_lines"]
+    info = {}
+    for l in res["stderr"]:
+        if l.startswith("SUMM "):
+            w = l.split(" ")
+            info[int(w[1]) - 1] = dict(kv.split("=", 1) for kv in w[2:])
+    programs = {}
+    least = {}
+    for i, r in enumerate(reqs):
+        key = r.split(" ", 2)[2] if r.count(" ") >= 2 else r
+        d = info.get(i)
+        if d is not None and d["lost"] == "0":
+            least[key] = min(least.get(key, 1 << 70), int(d["budget"]))
+    for i, r in enumerate(reqs):
+        ck.count("requests_summ")
+        a = impl[i] if i < len(impl) else "?"
+        key = r.split(" ", 2)[2] if r.count(" ") >= 2 else r
+        prog = programs.setdefault(key, {"ran_out": False, "scc": 0, "wf": True, "panic": False})
+        if a == "panic":
+            ck.count("summ_requests_answered_panic")
+            prog["panic"] = True
+            continue
+        d = info.get(i)
+        if d is None:
+            continue
+        f, lost, budget, bound, scc_max = int(d["f"]), int(d["lost"]), int(d["budget"]), int(d["bound"]), int(d["maxscc"])
+        prog["scc"] = max(prog["scc"], scc_max)
+        prog["wf"] = prog["wf"] and d["wf"] == "1"
+        if lost:
+            prog["ran_out"] = True
+            ck.count("summ_requests_where_the_budget_ran_out")
+            ck.count("summ_requests_budget_ran_out_%s" % ("before_the_first_event" if lost == f and budget == 0 else
+                                                          "everything_lost" if lost == f else "part_of_the_program_lost"))
+        if budget >= bound:
+            ck.count("summ_requests_with_budget_at_or_above_the_preflight_bound")
+        elif budget == bound - 1:
+            ck.count("summ_requests_with_budget_one_below_the_bound")
+        at_least = key in least and budget in (least[key], least[key] - 1)
+        if at_least:
+            ck.count("summ_requests_at_the_least_sufficient_budget_or_one_below")
+        if lost or at_least or abs(budget - bound) <= 1:
+            ck.nontrivial_case(r[:4000])
+    for prog in programs.values():
+        ck.count("summ_programs")
+        if prog["ran_out"]:
+            ck.count("summ_programs_where_some_budget_ran_out")
+        if prog["scc"] >= 3:
+            ck.count("summ_programs_with_a_component_of_3_or_more")
+        if prog["scc"] >= 10:
+            ck.count("summ_programs_with_a_component_of_10_or_more")
+        if not prog["wf"]:
+            ck.count("summ_programs_malformed_duplicates")
+        if prog["panic"]:
+            ck.count("summ_programs_malformed_callee_out_of_range")
+    if len(info) + sum(1 for a in impl if a == "panic") + sum(1 for a in impl if a == "bad-op") != len(reqs):
+        ck.broken.append({"kind": "summ-side-info-missing", "what": f"{len(reqs)} requests, {len(info)} SUMM lines"})
 
 
 # --------------------------------------------------------------------------------------------- scc
@@ -474,6 +583,15 @@ def search(ck):
     order) above its cap computed naively from the real counts, or limit/plan/warnings disagree, or
     an over-limit run differs from the run with the plan."""
     found = list(ck.oracle_fails)
+    if not found and any(d["request"].startswith("summ ") for d in ck.disagreements):
+        # the summary fixpoint and its model differ: is there a call graph on which a budget of the
+        # preflight bound does not suffice?
+        nd = len(ck.disagreements)
+        ck.seed += 4004
+        summ(ck, 3000, 60, label="limits-summ-search")
+        ck.seed -= 4004
+        del ck.disagreements[nd + 5:]
+        found = list(ck.oracle_fails)
     if not found:
         budget = 6000 if ck.tier == "quick" else 60000
         for shift in (1001, 2002, 3003):
@@ -534,6 +652,13 @@ def _program_of(req):
             return bytes.fromhex(w[2]).decode(errors="replace")
         except ValueError:
             return None
+    if w[0] == "summ" and len(w) > 3:
+        # the call graph in words
+        out = [f"{w[2]} functions, {w[3]} locals, event budget {w[1]} (preflight bound {int(w[2]) * (int(w[2]) + 2 * int(w[3]) + 2)})"]
+        for i, t in enumerate(w[4:]):
+            p = (t.split(";") + ["-"] * 4)[:4]
+            out.append(f"f{i}: calls {p[0]}  reads captured {p[1]}  writes captured {p[2]}  statement classes {p[3]}")
+        return "\n".join(out) + "\n"
     if w[0] == "prog" and len(w) > 13:
         try:
             return bytes.fromhex(w[13]).decode(errors="replace")
@@ -568,6 +693,8 @@ def shrink(ck, req, what):
                 else:
                     i += 1
         return best
+    if w[0] == "summ":
+        return shrink_summ(req, still)
     if w[0] == "lim":
         best = w
         for j in range(1, 12):
@@ -577,6 +704,49 @@ def shrink(ck, req, what):
                 best = cand
         return " ".join(best)
     return req
+
+
+def shrink_summ(req, still):
+    """Drop direct facts entry by entry, then uncalled trailing functions, while the oracle fails.
+    A budget that was at the preflight bound follows the bound."""
+    w = req.split(" ")
+    budget, f, l = int(w[1]), int(w[2]), int(w[3])
+    at_bound = budget - f * (f + 2 * l + 2)
+
+    def parse(t):
+        return [[] if x == "-" else x.split(",") for x in t.split(";")]
+
+    def line(fns):
+        n = len(fns)
+        b = max(0, n * (n + 2 * l + 2) + at_bound) if at_bound >= -1 else budget
+        return " ".join(["summ", str(b), str(n), str(l)] + [";".join(",".join(x) or "-" for x in fn) for fn in fns])
+
+    fns = [parse(t) for t in w[4:]]
+    tries = 0
+    changed = True
+    while changed and tries < 400:
+        changed = False
+        # trailing functions nobody calls
+        while len(fns) > 1 and not any(str(len(fns) - 1) in fn[0] for fn in fns[:-1]) and tries < 400:
+            tries += 1
+            if still(line(fns[:-1])):
+                fns = fns[:-1]
+                changed = True
+            else:
+                break
+        for i in range(len(fns)):
+            for k in range(4):
+                j = 0
+                while j < len(fns[i][k]) and tries < 400:
+                    cand = [[list(x) for x in fn] for fn in fns]
+                    del cand[i][k][j]
+                    tries += 1
+                    if still(line(cand)):
+                        fns = cand
+                        changed = True
+                    else:
+                        j += 1
+    return line(fns)
 
 
 # ------------------------------------------------------------------------------------------ replay
